@@ -612,4 +612,153 @@ theorem resampleNd_same (a : Arr (Cx ℝ)) (ha : WFArr a) (axes : List Nat)
     intro z _
     exact hsc z
 
+/-! ### homogeneity and the round trip with the rescales -/
+
+theorem smul_zero' (c : ℝ) : Cx.smul c (Cx.zero : Cx ℝ) = Cx.zero := by apply toC_inj; simp
+
+theorem resample1U_smul (c : ℝ) (x : List (Cx ℝ)) (m : ℕ) :
+    resample1U m (x.map (Cx.smul c)) = (resample1U m x).map (Cx.smul c) := by
+  unfold resample1U
+  rw [List.length_map, dft_smul]
+  conv_lhs => rw [← smul_zero' c, spectrumMap_map, idft_smul]
+
+/-- `c · a` for a real scalar -/
+noncomputable def scaleArr (c : ℝ) (a : Arr (Cx ℝ)) : Arr (Cx ℝ) := ⟨a.shape, a.data.map (Cx.smul c)⟩
+
+theorem wf_scaleArr (c : ℝ) (a : Arr (Cx ℝ)) (ha : WFArr a) : WFArr (scaleArr c a) := by
+  unfold WFArr scaleArr at *; simpa using ha
+
+theorem line_scaleArr (c : ℝ) (a : Arr (Cx ℝ)) (ax : ℕ) (j : List ℕ) :
+    line (scaleArr c a) ax j = (line a ax j).map (Cx.smul c) := by
+  unfold line
+  rw [List.map_map]
+  apply List.map_congr_left
+  intro i _
+  exact get_map_smul c a _
+
+theorem getD_map_smul (c : ℝ) (l : List (Cx ℝ)) (i : ℕ) :
+    (l.map (Cx.smul c)).getD i default = Cx.smul c (l.getD i default) := by
+  simp only [List.getD_eq_getElem?_getD, List.getElem?_map]
+  cases l[i]? with
+  | some z => rfl
+  | none => exact (smul_zero' c).symm
+
+theorem alongAxis_scale (c : ℝ) (a : Arr (Cx ℝ)) (ax m : ℕ) :
+    alongAxis (scaleArr c a) ax m (resample1U m) = scaleArr c (alongAxis a ax m (resample1U m)) := by
+  apply arr_ext
+  · rfl
+  · exact wf_alongAxis _ _ _ _
+  · exact wf_scaleArr _ _ (wf_alongAxis _ _ _ _)
+  · intro j hj
+    have hj' : InBox (a.shape.set ax m) j := hj
+    rw [alongAxis_get _ _ _ _ hj, line_scaleArr, resample1U_smul, getD_map_smul]
+    show _ = (scaleArr c (alongAxis a ax m (resample1U m))).get j
+    unfold scaleArr
+    rw [get_map_smul, alongAxis_get _ _ _ _ hj']
+
+theorem resampleFold_scale (c : ℝ) (a : Arr (Cx ℝ)) (pairs : List (ℕ × ℕ)) :
+    resampleFold (scaleArr c a) pairs = scaleArr c (resampleFold a pairs) := by
+  induction pairs generalizing a with
+  | nil => rfl
+  | cons p t ih => rw [resampleFold_cons, resampleFold_cons, alongAxis_scale, ih]
+
+theorem resampleNd_eq_scale (a : Arr (Cx ℝ)) (axes outs : List ℕ) :
+    resampleNd a axes outs false
+      = scaleArr (Num.ofNat (prod outs) / Num.ofNat (prod (axes.map fun ax => a.shape.getD ax 1)))
+          (resampleFold a (axes.zip outs)) := by
+  unfold resampleNd scaleArr
+  simp only [Bool.false_eq_true, if_false]
+
+theorem scale_scale (c d : ℝ) (a : Arr (Cx ℝ)) (h : d * c = 1) : scaleArr d (scaleArr c a) = a := by
+  cases a with
+  | mk shape data =>
+    unfold scaleArr
+    simp only [List.map_map]
+    congr 1
+    conv_rhs => rw [← List.map_id data]
+    apply List.map_congr_left
+    intro z _
+    apply toC_inj
+    simp only [Function.comp, toC_smul, id]
+    rw [← mul_assoc]
+    have : ((d : ℂ) * (c : ℂ)) = 1 := by exact_mod_cast h
+    rw [this, one_mul]
+
+theorem downPairs_eq : ∀ (axes outs : List ℕ) (s : List ℕ), axes.Nodup → axes.length = outs.length →
+    downPairs s (axes.zip outs) = (axes.zip (axes.map fun ax => s.getD ax 1)).reverse
+  | [], [], _, _, _ => rfl
+  | ax :: axes, m :: outs, s, hnd, hl => by
+    have hnd' := List.nodup_cons.mp hnd
+    have hsame : (axes.map fun a => (s.set ax m).getD a 1) = axes.map fun a => s.getD a 1 := by
+      apply List.map_congr_left
+      intro a ha
+      exact getD_set_ne _ _ _ _ _ (fun h => hnd'.1 (h ▸ ha))
+    simp only [List.zip_cons_cons, downPairs, List.map_cons, List.reverse_cons]
+    rw [downPairs_eq axes outs (s.set ax m) hnd'.2 (by simpa using hl), hsame]
+  | [], _ :: _, _, _, hl => by simp at hl
+  | _ :: _, [], _, _, hl => by simp at hl
+
+theorem prod_append (l r : List ℕ) : prod (l ++ r) = prod l * prod r := by
+  induction l with
+  | nil => simp [prod]
+  | cons a t ih => simp only [List.cons_append, prod, ih]; ring
+
+theorem prod_reverse (l : List ℕ) : prod l.reverse = prod l := by
+  induction l with
+  | nil => rfl
+  | cons a t ih => rw [List.reverse_cons, prod_append, ih]; simp [prod]; ring
+
+/-- after the fold, a resampled axis has its requested length (distinct valid axes) -/
+theorem getD_resampleShapeN : ∀ (axes outs : List ℕ) (s : List ℕ), axes.Nodup → axes.length = outs.length →
+    (∀ ax ∈ axes, ax < s.length) →
+    (axes.map fun ax => (resampleShapeN s (axes.zip outs)).getD ax 1) = outs
+  | [], [], _, _, _, _ => rfl
+  | ax :: axes, m :: outs, s, hnd, hl, hv => by
+    have hnd' := List.nodup_cons.mp hnd
+    have ih := getD_resampleShapeN axes outs (s.set ax m) hnd'.2 (by simpa using hl)
+      (fun a ha => by simpa using hv a (by simp [ha]))
+    have hstep : resampleShapeN s ((ax :: axes).zip (m :: outs)) = resampleShapeN (s.set ax m) (axes.zip outs) := rfl
+    rw [hstep, List.map_cons, ih]
+    congr 1
+    -- the first axis is not touched by the later pairs
+    have hkeep : ∀ (pairs : List (ℕ × ℕ)) (t : List ℕ), (∀ p ∈ pairs, p.1 ≠ ax) →
+        (resampleShapeN t pairs).getD ax 1 = t.getD ax 1 := by
+      intro pairs
+      induction pairs with
+      | nil => intro t _; rfl
+      | cons p ps ihp =>
+        intro t hp
+        show (resampleShapeN (t.set p.1 p.2) ps).getD ax 1 = _
+        rw [ihp _ (fun q hq => hp q (by simp [hq])), getD_set_ne _ _ _ _ _ (hp p (by simp))]
+    rw [hkeep _ _ (fun p hp => fun h => hnd'.1 (h ▸ (List.of_mem_zip hp).1))]
+    simp [List.getD_eq_getElem?_getD, hv ax (by simp)]
+  | [], _ :: _, _, _, hl, _ => by simp at hl
+  | _ :: _, [], _, _, hl, _ => by simp at hl
+
+/-- **N-D round trip of `fourier_resample` on complex data, rescales included**: up-sampling
+distinct axes and then resampling the same axes (reverse order) back to their original lengths
+returns the original array -/
+theorem resampleNd_up_down (a : Arr (Cx ℝ)) (ha : WFArr a) (axes outs : List ℕ) (hnd : axes.Nodup)
+    (hl : axes.length = outs.length) (hv : ∀ ax ∈ axes, ax < a.shape.length)
+    (h : UpOk a.shape (axes.zip outs)) (hok : PairsOk a.shape (axes.zip outs)) :
+    resampleNd (resampleNd a axes outs false) axes.reverse
+      (axes.map fun ax => a.shape.getD ax 1).reverse false = a := by
+  obtain ⟨ho, hi⟩ := pairsOk_prod_ne axes outs a.shape hnd hl hok
+  rw [resampleNd_eq_scale a axes outs, resampleNd_eq_scale]
+  have hzip : axes.reverse.zip (axes.map fun ax => a.shape.getD ax 1).reverse
+      = downPairs a.shape (axes.zip outs) := by
+    rw [downPairs_eq axes outs a.shape hnd hl, List.zip_eq_zipWith, List.zip_eq_zipWith,
+      List.reverse_zipWith (by simp)]
+  rw [hzip, resampleFold_scale, resampleFold_up_down a ha _ h]
+  apply scale_scale
+  -- the two rescale factors are inverse to each other
+  have hmid : (scaleArr (Num.ofNat (prod outs) / Num.ofNat (prod (axes.map fun ax => a.shape.getD ax 1)))
+      (resampleFold a (axes.zip outs))).shape = resampleShapeN a.shape (axes.zip outs) :=
+    shape_resampleFold a _
+  rw [hmid, List.map_reverse, prod_reverse, prod_reverse, getD_resampleShapeN axes outs a.shape hnd hl hv]
+  have h1 : ((prod outs : ℕ) : ℝ) ≠ 0 := by exact_mod_cast ho
+  have h2 : ((prod (axes.map fun ax => a.shape.getD ax 1) : ℕ) : ℝ) ≠ 0 := by exact_mod_cast hi
+  simp only [NumReal.div_eq, NumReal.ofNat_eq]
+  field_simp
+
 end QuantemModel.Resample
